@@ -5,6 +5,10 @@ Driver for C02. Case fields (after the id):
   cfg(3 bits CaseSensitive StrictRouting UnescapePath)  mode(0 GET / 1 Use / 2 GET of a sub-app
   mounted under /m)  pattern(hex)  path(hex)
   customs(hexlist)  vtf  vts  implObs
+path: one hex path, or for a HISTORY (2-4 requests served one after the other by the same app,
+same goroutine, reused fasthttp.RequestCtx) the comma-separated hex paths; implObs then holds one
+observation per request joined by '|'. Every request of a history is judged by the same history-free
+model and spec as a single request (`history_stateless` names that hypothesis).
 vtf / vts: `hex(key)=hexlist(values with verdict true)` joined by `;` (`-` = none): verdicts of the
 abstractly modelled constraints over the '/'-free substrings of the user-visible path, vtf from the
 real code (feeds the model), vts from the standard library (feeds the spec oracle).
@@ -94,49 +98,80 @@ def parseCfg (s : String) : Option Config :=
     else none
   | _ => none
 
+/-- one request, judged on its own (history-free): model observation, failing spec clause, tags,
+    whether the handler ran -/
+def judgeOne (cfg : Config) (mode : Nat) (pat0 : Bytes) (customs : List Bytes) (vtf vts : Table)
+    (declared written routed : List Seg) (path : Bytes) (impl : String) :
+    Except String (String × Option String × List String × Bool) := do
+  let use := mode == 1
+  unless path.headD 0 == SLASH && !(path.take 2 == [SLASH, SLASH]) && !path.contains 63 && !path.contains 35 do
+    throw "outside-domain: request path must start with one '/', no query/fragment"
+  let some io := parseObs impl | throw "outside-domain: observation"
+  let mo := serve customs (absOf vtf) cfg mode pat0 path
+  let outside := missingKeys false customs vtf routed || missingKeys true customs vts written
+  let chkDecl := specCheck customs (absOf vts)
+  -- duplicate parameter names (case-insensitively unless CaseSensitive): Params(name) cannot
+  -- report the positional values, the substitution clause is not evaluable (documented assumption)
+  let declNames := (paramSegs declared).map (fun s => if cfg.caseSensitive then s.paramName else toLower s.paramName)
+  let dup := declNames.eraseDups.length != declNames.length
+  let spec := if outside || dup then none else specViolation cfg use declared written routed chkDecl io
+  let kind := if (paramSegs routed).isEmpty then "literal"
+              else if (paramSegs routed).any (·.isGreedy) then "greedy" else "named"
+  let hasC := (paramSegs routed).any (!·.constraints.isEmpty)
+  let nt := if io.ran == 1 && !(paramSegs routed).isEmpty then ["nt-match"]
+            else if io.ran == 0 && hasC then ["nt-reject-constrained"] else []
+  let tags := [if use then "use" else if mode == 2 then "mount" else "get", kind, if io.ran == 1 then "ran" else "notran"] ++
+              (if hasC then ["constrained"] else []) ++ nt ++ (if outside then ["outside-model"] else []) ++
+              (if dup then ["dup-names"] else []) ++
+              (if Known.wasK1 cfg customs written then [if io.ran == 1 then "nt-foldsens-ran" else "nt-foldsens-notran"] else [])
+  pure (if outside then impl else renderObs mo, spec, tags, io.ran == 1)
+
+/-- does the pattern carry a constraint of one of the kinds fiber may want to memoise -/
+def hasCostly (segs : List Seg) : Bool :=
+  segs.any fun s => s.constraints.any fun c => c.id == .regex || c.id == .datetime || c.id == .guid
+
 def handleCase (f : List String) : Except String Verdict := do
   match f with
   | [id, cfg, use, pat, path, customs, vtf, vts, impl] =>
     let some cfg := parseCfg cfg | throw "outside-domain: cfg"
     unless use == "0" || use == "1" || use == "2" do throw "outside-domain: mode"
     let mode : Nat := if use == "1" then 1 else if use == "2" then 2 else 0
-    let use := mode == 1
     let some pat0 := fromHex pat | throw "outside-domain: pattern"
     let pat := effectivePattern mode pat0
-    let some path := fromHex path | throw "outside-domain: path"
+    -- a single request (plain hex) or a history (comma-separated hex paths) on one app
+    let history := path.contains ','
+    let some paths := (if history then hexList path else (fromHex path).map ([·])) | throw "outside-domain: path"
+    if paths.isEmpty then throw "outside-domain: empty history"
     let some customs := hexList customs | throw "outside-domain: customs"
     let some vtf := parseTable vtf | throw "outside-domain: vtf"
     let some vts := parseTable vts | throw "outside-domain: vts"
-    unless path.headD 0 == SLASH && !(path.take 2 == [SLASH, SLASH]) && !path.contains 63 && !path.contains 35 do
-      throw "outside-domain: request path must start with one '/', no query/fragment"
-    let some io := parseObs impl | throw "outside-domain: observation"
-    let mo := serve customs (absOf vtf) cfg mode pat0 path
     let declared := (parseRoute (rawPattern pat)).map (·.segs)
     let written := (parseRoute (writtenPattern cfg pat)).map (·.segs)
-    let routed := (register cfg use pat).map (·.parser.segs)
+    let routed := (register cfg (mode == 1) pat).map (·.parser.segs)
     match declared, written, routed with
     | some declared, some written, some routed =>
-      let outside := missingKeys false customs vtf routed || missingKeys true customs vts written
-      let chkDecl := specCheck customs (absOf vts)
-      -- duplicate parameter names (case-insensitively unless CaseSensitive): Params(name) cannot
-      -- report the positional values, the substitution clause is not evaluable (documented assumption)
-      let declNames := (paramSegs declared).map (fun s => if cfg.caseSensitive then s.paramName else toLower s.paramName)
-      let dup := declNames.eraseDups.length != declNames.length
-      let spec := if outside || dup then none else specViolation cfg use declared written routed chkDecl io
-      let kind := if (paramSegs routed).isEmpty then "literal"
-                  else if (paramSegs routed).any (·.isGreedy) then "greedy" else "named"
-      let hasC := (paramSegs routed).any (!·.constraints.isEmpty)
-      let nt := if io.ran == 1 && !(paramSegs routed).isEmpty then ["nt-match"]
-                else if io.ran == 0 && hasC then ["nt-reject-constrained"] else []
-      let tags := [if use then "use" else if mode == 2 then "mount" else "get", kind, if io.ran == 1 then "ran" else "notran"] ++
-                  (if hasC then ["constrained"] else []) ++ nt ++ (if outside then ["outside-model"] else []) ++
-                  (if dup then ["dup-names"] else []) ++
-                  (if Known.wasK1 cfg customs written then [if io.ran == 1 then "nt-foldsens-ran" else "nt-foldsens-notran"] else [])
-      pure { id := id, modelObs := if outside then impl else renderObs mo, implObs := impl, spec := spec,
-             known := none, tags := tags }
+      let impls := impl.splitOn "|"
+      if impls.length != paths.length then
+        -- e.g. the implementation panicked at registration: one observation for the whole history
+        let mos := paths.map fun p => renderObs (serve customs (absOf vtf) cfg mode pat0 p)
+        let outside := missingKeys false customs vtf routed || missingKeys true customs vts written
+        pure { id := id, modelObs := if outside then impl else "|".intercalate mos, implObs := impl, spec := none,
+               tags := ["obs-count"] ++ (if outside then ["outside-model"] else []) }
+      else
+        -- every request is judged on its own: the model and the spec are history-free
+        let rs ← (paths.zip impls).mapM fun (p, io) => judgeOne cfg mode pat0 customs vtf vts declared written routed p io
+        let spec := rs.findSome? (·.2.1)
+        let rans := rs.map (·.2.2.2)
+        let flips := (rans.zip rans.tail).any fun (a, b) => a != b
+        let htags := if history then
+            ["history"] ++ (if flips then ["nt-history-flip"] else []) ++
+            (if flips && hasCostly routed then ["nt-history-flip-costly"] else [])
+          else []
+        pure { id := id, modelObs := "|".intercalate (rs.map (·.1)), implObs := impl, spec := spec,
+               known := none, tags := (rs.map (·.2.2.1)).flatten.eraseDups ++ htags }
     | _, _, _ =>
       -- the model says registration panics: nothing is served, the property is silent
-      pure { id := id, modelObs := renderObs mo, implObs := impl, spec := none, tags := ["reg-panic"] }
+      pure { id := id, modelObs := "panic", implObs := impl, spec := none, tags := ["reg-panic"] }
   | _ => throw s!"outside-domain: expected 9 fields, got {f.length}"
 
 end C02Driver
